@@ -1071,11 +1071,994 @@ fn corr(seed: u64, n: usize) {
 // ================================================================================================
 // falsifier
 // ================================================================================================
-//FALSIFIER
-fn falsify(_seed: u64, _n: usize) {
-    let _ = (jstr(""), |_: Progress| (), CubeExtension::<f64::BaseElement>::ZERO, QuadExtension::<f64::BaseElement>::ZERO);
-    let _ = watchdog::run(std::time::Duration::from_secs(1), |_| (), |_| ());
-    fn _x<B: FieldElement, E: ExtensionOf<B>>() {}
+// Oracle: schoolbook reference code below, written against the field's +, -, *, inv, == only (no Horner, no
+// in-place tricks, no code of winter_math::polynom / winter_math::utils), plus u128 modular arithmetic
+// (wf_harness::refmath) on `as_int()` for the base fields.
+trait Gen: FieldElement {
+    const NAME: &'static str;
+    /// the modulus when Self is a base field (elements are then cross-checked with u128 arithmetic), else 0
+    const P: u128 = 0;
+    fn gen(r: &mut Rng) -> Self;
+    fn val(&self) -> Option<u128> {
+        None
+    }
+}
+
+fn base_res(p: u128, r: &mut Rng) -> u128 {
+    match r.below(4) {
+        0 => [0, 1, 2, p - 1, p - 2, (p - 1) / 2, 3, 7][r.below(8) as usize],
+        _ => r.next_u128() % p,
+    }
+}
+
+macro_rules! gen_base {
+    ($t:ty) => {
+        impl Gen for $t {
+            const NAME: &'static str = <$t as BF>::NAME;
+            const P: u128 = <$t as BF>::P;
+            fn gen(r: &mut Rng) -> Self {
+                <$t as BF>::fu(base_res(<$t as BF>::P, r))
+            }
+            fn val(&self) -> Option<u128> {
+                Some(self.tu())
+            }
+        }
+    };
+}
+gen_base!(f64::BaseElement);
+gen_base!(f62::BaseElement);
+gen_base!(f128::BaseElement);
+
+macro_rules! gen_quad {
+    ($b:ty, $name:expr) => {
+        impl Gen for QuadExtension<$b> {
+            const NAME: &'static str = $name;
+            fn gen(r: &mut Rng) -> Self {
+                let n = |r: &mut Rng| <$b as Gen>::gen(r);
+                match r.below(8) {
+                    0 => Self::from(n(r)),
+                    1 => QuadExtension::new(<$b as FieldElement>::ZERO, n(r)),
+                    2 => QuadExtension::new(n(r), n(r)) * QuadExtension::new(n(r), n(r)),
+                    3 => QuadExtension::new(n(r), n(r)) + Self::from(n(r)),
+                    _ => QuadExtension::new(n(r), n(r)),
+                }
+            }
+        }
+    };
+}
+gen_quad!(f64::BaseElement, "quad<f64>");
+gen_quad!(f62::BaseElement, "quad<f62>");
+gen_quad!(f128::BaseElement, "quad<f128>");
+
+macro_rules! gen_cube {
+    ($b:ty, $name:expr) => {
+        impl Gen for CubeExtension<$b> {
+            const NAME: &'static str = $name;
+            fn gen(r: &mut Rng) -> Self {
+                let n = |r: &mut Rng| <$b as Gen>::gen(r);
+                let z = <$b as FieldElement>::ZERO;
+                match r.below(8) {
+                    0 => Self::from(n(r)),
+                    1 => CubeExtension::new(z, n(r), z),
+                    2 => CubeExtension::new(n(r), n(r), n(r)) * CubeExtension::new(n(r), n(r), n(r)),
+                    3 => CubeExtension::new(z, z, n(r)) + Self::from(n(r)),
+                    _ => CubeExtension::new(n(r), n(r), n(r)),
+                }
+            }
+        }
+    };
+}
+gen_cube!(f64::BaseElement, "cube<f64>");
+gen_cube!(f62::BaseElement, "cube<f62>");
+
+struct Cx {
+    field: &'static str,
+    evals: usize,
+    fails: usize,
+    prog: Progress,
+}
+
+impl Cx {
+    fn fail(&mut self, what: &str, input: &str, expected: &str, actual: &str) {
+        self.fails += 1;
+        if self.fails <= 200 {
+            println!(
+                "{{\"field\":{},\"what\":{},\"input\":{},\"expected\":{},\"actual\":{}}}",
+                jstr(self.field), jstr(what), jstr(input), jstr(expected), jstr(actual)
+            );
+        }
+    }
+    /// one identity evaluated
+    fn ck(&mut self, ok: bool, what: &str, input: &dyn Fn() -> String, ea: &dyn Fn() -> (String, String)) {
+        self.evals += 1;
+        if !ok {
+            let (e, a) = ea();
+            self.fail(what, &input(), &e, &a);
+        }
+    }
+}
+
+/// runs `body`; a panic there (inputs satisfy the documented preconditions) is a failure record
+fn guarded(cx: &mut Cx, fname: &str, input: &dyn Fn() -> String, body: impl FnOnce(&mut Cx)) {
+    let field = cx.field;
+    cx.prog.step(|| format!("{} {} {}", field, fname, input()));
+    if let Err(m) = catch(AssertUnwindSafe(|| body(cx))) {
+        cx.evals += 1;
+        cx.fail(&format!("panic: {}: {}", fname, m), &input(), "no panic", "panic");
+    }
+}
+
+fn must_panic<T>(cx: &mut Cx, what: &str, input: &dyn Fn() -> String, f: impl FnOnce() -> T) {
+    let field = cx.field;
+    cx.prog.step(|| format!("{} must-panic {} {}", field, what, input()));
+    cx.evals += 1;
+    if catch(AssertUnwindSafe(f)).is_ok() {
+        cx.fail(&format!("no panic: {}", what), &input(), "panic", "returned");
+    }
+}
+
+fn fe<E: FieldElement>(e: E) -> String {
+    format!("{}", e)
+}
+fn fv<E: FieldElement>(v: &[E]) -> String {
+    let mut s = String::from("[");
+    for (i, e) in v.iter().take(40).enumerate() {
+        if i > 0 {
+            s.push(',');
+        }
+        s.push_str(&format!("{}", e));
+    }
+    if v.len() > 40 {
+        s.push_str(&format!(",...(len {})", v.len()));
+    }
+    s.push(']');
+    s
+}
+
+// ---------------------------------------------------------------- reference code
+fn ref_eval<B: FieldElement, E: FieldElement + From<B>>(p: &[B], x: E) -> E {
+    let mut s = E::ZERO;
+    let mut pw = E::ONE;
+    for c in p {
+        s = s + E::from(*c) * pw;
+        pw = pw * x;
+    }
+    s
+}
+/// product as a fresh vector of length la + lb - 1; the zero polynomial [] when an operand is empty
+fn ref_mul<E: FieldElement>(a: &[E], b: &[E]) -> Vec<E> {
+    if a.is_empty() || b.is_empty() {
+        return vec![];
+    }
+    let mut out = vec![E::ZERO; a.len() + b.len() - 1];
+    for k in 0..out.len() {
+        let mut s = E::ZERO;
+        for i in 0..a.len() {
+            if k >= i && k - i < b.len() {
+                s = s + a[i] * b[k - i];
+            }
+        }
+        out[k] = s;
+    }
+    out
+}
+fn at<E: FieldElement>(v: &[E], i: usize) -> E {
+    if i < v.len() { v[i] } else { E::ZERO }
+}
+fn ref_add<E: FieldElement>(a: &[E], b: &[E]) -> Vec<E> {
+    (0..a.len().max(b.len())).map(|i| at(a, i) + at(b, i)).collect()
+}
+fn ref_sub<E: FieldElement>(a: &[E], b: &[E]) -> Vec<E> {
+    (0..a.len().max(b.len())).map(|i| at(a, i) - at(b, i)).collect()
+}
+fn ref_deg<E: FieldElement>(p: &[E]) -> Option<usize> {
+    let mut d = None;
+    for (i, c) in p.iter().enumerate() {
+        if *c != E::ZERO {
+            d = Some(i);
+        }
+    }
+    d
+}
+fn trim<E: FieldElement>(p: &[E]) -> Vec<E> {
+    match ref_deg(p) {
+        Some(d) => p[..=d].to_vec(),
+        None => vec![],
+    }
+}
+fn peq<E: FieldElement>(a: &[E], b: &[E]) -> bool {
+    trim(a) == trim(b)
+}
+fn ref_from_roots<E: FieldElement>(roots: &[E]) -> Vec<E> {
+    let mut d = vec![E::ONE];
+    for r in roots {
+        d = ref_mul(&d, &[E::ZERO - *r, E::ONE]);
+    }
+    d
+}
+fn padded<E: FieldElement>(v: &[E], n: usize) -> Vec<E> {
+    let mut o = v.to_vec();
+    while o.len() < n {
+        o.push(E::ZERO);
+    }
+    o
+}
+fn all_zero<E: FieldElement>(v: &[E]) -> bool {
+    v.iter().all(|c| *c == E::ZERO)
+}
+
+// ---------------------------------------------------------------- identities
+fn ck_eval<E: Gen>(cx: &mut Cx, p: &[E], x: E) {
+    let inp = || format!("p={} x={}", fv(p), x);
+    guarded(cx, "eval", &inp, |cx| {
+        let got = polynom::eval(p, x);
+        let want = ref_eval(p, x);
+        cx.ck(got == want, "eval(p,x) != sum c_i*x^i", &inp, &|| (fe(want), fe(got)));
+        if let Some(xv) = x.val() {
+            let pm = E::P;
+            let (mut s, mut pw) = (0u128, 1u128);
+            for c in p {
+                s = addmod(s, mulmod(c.val().unwrap_or(0), pw, pm), pm);
+                pw = mulmod(pw, xv, pm);
+            }
+            cx.ck(got.val() == Some(s), "eval(p,x) != u128 reference", &inp, &|| (format!("{}", s), fe(got)));
+        }
+    });
+}
+
+fn ck_eval_many<E: Gen>(cx: &mut Cx, p: &[E], xs: &[E]) {
+    let inp = || format!("p={} xs={}", fv(p), fv(xs));
+    guarded(cx, "eval_many", &inp, |cx| {
+        let got = polynom::eval_many(p, xs);
+        let want: Vec<E> = xs.iter().map(|x| ref_eval(p, *x)).collect();
+        cx.ck(got == want, "eval_many(p,xs) != pointwise reference", &inp, &|| (fv(&want), fv(&got)));
+    });
+}
+
+fn ck_addsub<E: Gen>(cx: &mut Cx, a: &[E], b: &[E], k: E) {
+    let inp = || format!("a={} b={} k={}", fv(a), fv(b), k);
+    guarded(cx, "add", &inp, |cx| {
+        let got = polynom::add(a, b);
+        let want = ref_add(a, b);
+        cx.ck(got == want && got.len() == a.len().max(b.len()), "add(a,b) != pointwise sum of length max", &inp, &|| (fv(&want), fv(&got)));
+    });
+    guarded(cx, "sub", &inp, |cx| {
+        let got = polynom::sub(a, b);
+        let want = ref_sub(a, b);
+        cx.ck(got == want && got.len() == a.len().max(b.len()), "sub(a,b) != pointwise difference of length max", &inp, &|| (fv(&want), fv(&got)));
+    });
+    guarded(cx, "mul_by_scalar", &inp, |cx| {
+        let got = polynom::mul_by_scalar(a, k);
+        let want: Vec<E> = a.iter().map(|c| *c * k).collect();
+        cx.ck(got == want, "mul_by_scalar(a,k) != pointwise product", &inp, &|| (fv(&want), fv(&got)));
+    });
+}
+
+fn ck_mul<E: Gen>(cx: &mut Cx, a: &[E], b: &[E], x: E) {
+    let inp = || format!("a={} b={} x={}", fv(a), fv(b), x);
+    guarded(cx, "mul", &inp, |cx| {
+        let got = polynom::mul(a, b);
+        let want_len = if a.len() + b.len() == 0 { 0 } else { a.len() + b.len() - 1 };
+        let want = padded(&ref_mul(a, b), want_len);
+        cx.ck(got == want, "mul(a,b) != schoolbook product of length la+lb-1", &inp, &|| (fv(&want), fv(&got)));
+        let (l, r) = (ref_eval(&got, x), ref_eval(a, x) * ref_eval(b, x));
+        cx.ck(l == r, "eval(mul(a,b),x) != eval(a,x)*eval(b,x)", &inp, &|| (fe(r), fe(l)));
+    });
+}
+
+/// preconditions: b != 0 and degree b <= degree a (an all-zero or empty `a` counts as degree 0)
+fn ck_div<E: Gen>(cx: &mut Cx, a: &[E], b: &[E]) {
+    let inp = || format!("a={} b={}", fv(a), fv(b));
+    guarded(cx, "div", &inp, |cx| {
+        let q = polynom::div(a, b);
+        let da = ref_deg(a).unwrap_or(0);
+        let db = ref_deg(b).unwrap_or(0);
+        let want_len = if a.is_empty() { 0 } else { da - db + 1 };
+        cx.ck(q.len() == want_len, "len(div(a,b)) != deg a - deg b + 1", &inp, &|| (format!("{}", want_len), format!("{}", q.len())));
+        let r = trim(&ref_sub(a, &ref_mul(&q, b)));
+        cx.ck(r.len() <= db, "deg(a - div(a,b)*b) >= deg b", &inp, &|| (format!("remainder of degree < {}", db), fv(&r)));
+    });
+}
+
+/// a := q0 * b (padded with `pad` zeros) must divide back to q0; q0 and b have non-zero leading coefficients
+fn ck_div_exact<E: Gen>(cx: &mut Cx, q0: &[E], b: &[E], pad: usize) {
+    let mut a = ref_mul(q0, b);
+    a.extend(std::iter::repeat(E::ZERO).take(pad));
+    let inp = || format!("a=q0*b q0={} b={} pad={}", fv(q0), fv(b), pad);
+    guarded(cx, "div", &inp, |cx| {
+        let q = polynom::div(&a, b);
+        cx.ck(peq(&q, q0), "div(q0*b, b) != q0", &inp, &|| (fv(q0), fv(&q)));
+    });
+}
+
+fn ck_div_panics<E: Gen>(cx: &mut Cx, a: &[E], nz: E) {
+    let inp = || format!("a={}", fv(a));
+    must_panic(cx, "div by empty polynomial", &inp, || polynom::div::<E>(a, &[]));
+    must_panic(cx, "div by [0]", &inp, || polynom::div(a, &[E::ZERO]));
+    must_panic(cx, "div by all-zero polynomial", &inp, || polynom::div(a, &[E::ZERO, E::ZERO, E::ZERO]));
+    let mut b = padded(a, a.len().max(1) + 1);
+    let l = b.len();
+    b[l - 1] = nz;
+    must_panic(cx, "div by polynomial of higher degree", &inp, || polynom::div(a, &b));
+}
+
+/// preconditions: a >= 1, b != 0, len p > a
+fn ck_syn_div<E: Gen>(cx: &mut Cx, p: &[E], a: usize, b: E) {
+    let inp = || format!("p={} a={} b={}", fv(p), a, b);
+    guarded(cx, "syn_div", &inp, |cx| {
+        let q = polynom::syn_div(p, a, b);
+        cx.ck(q.len() == p.len(), "len(syn_div(p,a,b)) != len p", &inp, &|| (format!("{}", p.len()), format!("{}", q.len())));
+        let mut d = vec![E::ZERO; a + 1];
+        d[0] = E::ZERO - b;
+        d[a] = E::ONE;
+        let r = ref_sub(p, &ref_mul(&q, &d));
+        cx.ck(all_zero(&r[a.min(r.len())..]), "p - syn_div(p,a,b)*(x^a-b) has degree >= a", &inp, &|| ("remainder of degree < a".into(), fv(&r)));
+        cx.ck(all_zero(&q[q.len() - a.min(q.len())..]), "top a entries of syn_div(p,a,b) not zero", &inp, &|| ("zeros".into(), fv(&q)));
+        let mut ip = p.to_vec();
+        polynom::syn_div_in_place(&mut ip, a, b);
+        cx.ck(ip == q, "syn_div_in_place != syn_div", &inp, &|| (fv(&q), fv(&ip)));
+    });
+}
+
+/// p := s * (x^a - b): the quotient is s (padded)
+fn ck_syn_div_exact<E: Gen>(cx: &mut Cx, s: &[E], a: usize, b: E) {
+    let mut d = vec![E::ZERO; a + 1];
+    d[0] = E::ZERO - b;
+    d[a] = E::ONE;
+    let p = ref_mul(s, &d);
+    let inp = || format!("p=s*(x^a-b) s={} a={} b={}", fv(s), a, b);
+    guarded(cx, "syn_div", &inp, |cx| {
+        let q = polynom::syn_div(&p, a, b);
+        let want = padded(s, p.len());
+        cx.ck(q == want, "syn_div(s*(x^a-b),a,b) != s padded", &inp, &|| (fv(&want), fv(&q)));
+    });
+}
+
+fn ck_syn_div_panics<E: Gen>(cx: &mut Cx, p: &[E], b: E) {
+    let inp = || format!("p={} b={}", fv(p), b);
+    let l = p.len();
+    must_panic(cx, "syn_div a=0", &inp, || polynom::syn_div(p, 0, b));
+    must_panic(cx, "syn_div b=0", &inp, || polynom::syn_div(p, 1, E::ZERO));
+    must_panic(cx, "syn_div a=len", &inp, || polynom::syn_div(p, l, b));
+    must_panic(cx, "syn_div_in_place a=len+1", &inp, || {
+        let mut q = p.to_vec();
+        polynom::syn_div_in_place(&mut q, l + 1, b)
+    });
+    must_panic(cx, "syn_div_in_place a=0", &inp, || {
+        let mut q = p.to_vec();
+        polynom::syn_div_in_place(&mut q, 0, b)
+    });
+}
+
+/// preconditions: 1 <= len roots < len p
+fn ck_syn_roots<E: Gen>(cx: &mut Cx, p: &[E], roots: &[E]) {
+    let inp = || format!("p={} roots={}", fv(p), fv(roots));
+    guarded(cx, "syn_div_roots_in_place", &inp, |cx| {
+        let m = roots.len();
+        let mut q = p.to_vec();
+        polynom::syn_div_roots_in_place(&mut q, roots);
+        let d = ref_from_roots(roots);
+        let r = ref_sub(p, &ref_mul(&q, &d));
+        cx.ck(all_zero(&r[m.min(r.len())..]), "p - q*prod(x-r_i) has degree >= m", &inp, &|| ("remainder of degree < m".into(), fv(&r)));
+        cx.ck(q.len() == p.len() && all_zero(&q[q.len() - m..]), "top m entries after syn_div_roots_in_place not zero", &inp, &|| ("zeros".into(), fv(&q)));
+        if roots.iter().all(|x| *x != E::ZERO) {
+            let mut s = p.to_vec();
+            for x in roots {
+                s = polynom::syn_div(&s, 1, *x);
+            }
+            cx.ck(s == q, "syn_div_roots_in_place != repeated syn_div(.,1,r_i)", &inp, &|| (fv(&s), fv(&q)));
+        }
+    });
+}
+
+fn ck_syn_roots_exact<E: Gen>(cx: &mut Cx, s: &[E], roots: &[E]) {
+    let p = ref_mul(s, &ref_from_roots(roots));
+    let inp = || format!("p=s*prod(x-r_i) s={} roots={}", fv(s), fv(roots));
+    guarded(cx, "syn_div_roots_in_place", &inp, |cx| {
+        let mut q = p.clone();
+        polynom::syn_div_roots_in_place(&mut q, roots);
+        let want = padded(s, p.len());
+        cx.ck(q == want, "syn_div_roots_in_place(s*prod(x-r_i)) != s padded", &inp, &|| (fv(&want), fv(&q)));
+    });
+}
+
+fn ck_syn_roots_panics<E: Gen>(cx: &mut Cx, p: &[E], roots: &[E]) {
+    let inp = || format!("p={} roots={}", fv(p), fv(roots));
+    must_panic(cx, "syn_div_roots_in_place without roots", &inp, || {
+        let mut q = p.to_vec();
+        polynom::syn_div_roots_in_place::<E>(&mut q, &[])
+    });
+    must_panic(cx, "syn_div_roots_in_place with len roots >= len p", &inp, || {
+        let mut q = p.to_vec();
+        polynom::syn_div_roots_in_place(&mut q, roots)
+    });
+}
+
+fn ck_from_roots<E: Gen>(cx: &mut Cx, xs: &[E]) {
+    let inp = || format!("xs={}", fv(xs));
+    guarded(cx, "poly_from_roots", &inp, |cx| {
+        let got = polynom::poly_from_roots(xs);
+        let want = ref_from_roots(xs);
+        cx.ck(got == want && got.len() == xs.len() + 1 && got[xs.len()] == E::ONE, "poly_from_roots(xs) != monic prod(x-x_i) of length n+1", &inp, &|| (fv(&want), fv(&got)));
+        let bad: Vec<E> = xs.iter().filter(|x| ref_eval(&got, **x) != E::ZERO).cloned().collect();
+        cx.ck(bad.is_empty(), "poly_from_roots(xs) does not vanish at a root", &inp, &|| ("0 at every root".into(), format!("non-zero at {}", fv(&bad))));
+    });
+}
+
+/// precondition: xs pairwise distinct (0 allowed), len ys = len xs
+fn ck_interp<E: Gen>(cx: &mut Cx, xs: &[E], ys: &[E]) {
+    let inp = || format!("xs={} ys={}", fv(xs), fv(ys));
+    guarded(cx, "interpolate", &inp, |cx| {
+        let p = polynom::interpolate(xs, ys, false);
+        cx.ck(p.len() == xs.len(), "len(interpolate(xs,ys,false)) != n", &inp, &|| (format!("{}", xs.len()), format!("{}", p.len())));
+        let back: Vec<E> = xs.iter().map(|x| ref_eval(&p, *x)).collect();
+        cx.ck(back == ys, "interpolate(xs,ys) does not pass through the points", &inp, &|| (fv(ys), fv(&back)));
+        let t = polynom::interpolate(xs, ys, true);
+        let want = trim(&p);
+        cx.ck(t == want, "interpolate(..,true) != trimmed interpolate(..,false)", &inp, &|| (fv(&want), fv(&t)));
+    });
+}
+
+/// precondition: xs pairwise distinct, len pc <= len xs
+fn ck_interp_roundtrip<E: Gen>(cx: &mut Cx, pc: &[E], xs: &[E]) {
+    let inp = || format!("p={} xs={}", fv(pc), fv(xs));
+    guarded(cx, "interpolate", &inp, |cx| {
+        let ys: Vec<E> = xs.iter().map(|x| ref_eval(pc, *x)).collect();
+        let got = polynom::interpolate(xs, &ys, false);
+        let want = padded(pc, xs.len());
+        cx.ck(got == want, "interpolate(xs, p(xs)) != p padded", &inp, &|| (fv(&want), fv(&got)));
+    });
+}
+
+fn ck_interp_batch<E: Gen, const N: usize>(cx: &mut Cx, xs: &[[E; N]], ys: &[[E; N]]) {
+    let inp = || {
+        format!("N={} xs={} ys={}", N, fv(&xs.iter().flatten().cloned().collect::<Vec<E>>()), fv(&ys.iter().flatten().cloned().collect::<Vec<E>>()))
+    };
+    guarded(cx, "interpolate_batch", &inp, |cx| {
+        let got = polynom::interpolate_batch(xs, ys);
+        cx.ck(got.len() == xs.len(), "len(interpolate_batch) != number of batches", &inp, &|| (format!("{}", xs.len()), format!("{}", got.len())));
+        for i in 0..xs.len().min(got.len()) {
+            let single = polynom::interpolate(&xs[i], &ys[i], false);
+            cx.ck(got[i].to_vec() == single, "interpolate_batch[i] != interpolate(xs[i],ys[i])", &inp, &|| (fv(&single), fv(&got[i])));
+            let back: Vec<E> = xs[i].iter().map(|x| ref_eval(&got[i], *x)).collect();
+            cx.ck(back == ys[i].to_vec(), "interpolate_batch[i] does not pass through the points", &inp, &|| (fv(&ys[i]), fv(&back)));
+        }
+    });
+}
+
+fn ck_degree<E: Gen>(cx: &mut Cx, p: &[E]) {
+    let inp = || format!("p={}", fv(p));
+    guarded(cx, "degree_of", &inp, |cx| {
+        let got = polynom::degree_of(p);
+        let want = ref_deg(p).unwrap_or(0);
+        cx.ck(got == want, "degree_of(p) != index of the last non-zero coefficient (0 if none)", &inp, &|| (format!("{}", want), format!("{}", got)));
+    });
+    guarded(cx, "remove_leading_zeros", &inp, |cx| {
+        let got = polynom::remove_leading_zeros(p);
+        let want = trim(p);
+        cx.ck(got == want, "remove_leading_zeros(p) != p without its zero leading coefficients", &inp, &|| (fv(&want), fv(&got)));
+    });
+}
+
+fn ck_pow<E: Gen>(cx: &mut Cx, b: E, s: E, n: usize) {
+    let inp = || format!("b={} s={} n={}", b, s, n);
+    guarded(cx, "get_power_series", &inp, |cx| {
+        let got = get_power_series(b, n);
+        let mut want = Vec::with_capacity(n);
+        let mut pw = E::ONE;
+        for _ in 0..n {
+            want.push(pw);
+            pw = pw * b;
+        }
+        cx.ck(got == want, "get_power_series(b,n)[i] != b^i", &inp, &|| (fv(&want), fv(&got)));
+        if let Some(bv) = b.val() {
+            let ok = got.len() == n && got.iter().enumerate().all(|(i, e)| e.val() == Some(powmod(bv, i as u128, E::P)));
+            cx.ck(ok, "get_power_series(b,n)[i] != powmod(b,i)", &inp, &|| ("b^i mod p".into(), fv(&got)));
+        }
+    });
+    guarded(cx, "get_power_series_with_offset", &inp, |cx| {
+        let got = get_power_series_with_offset(b, s, n);
+        let mut want = Vec::with_capacity(n);
+        let mut pw = E::ONE;
+        for _ in 0..n {
+            want.push(s * pw);
+            pw = pw * b;
+        }
+        cx.ck(got == want, "get_power_series_with_offset(b,s,n)[i] != s*b^i", &inp, &|| (fv(&want), fv(&got)));
+        if let (Some(bv), Some(sv)) = (b.val(), s.val()) {
+            let ok = got.len() == n && got.iter().enumerate().all(|(i, e)| e.val() == Some(mulmod(sv, powmod(bv, i as u128, E::P), E::P)));
+            cx.ck(ok, "get_power_series_with_offset(b,s,n)[i] != s*powmod(b,i)", &inp, &|| ("s*b^i mod p".into(), fv(&got)));
+        }
+    });
+}
+
+/// equal lengths: pointwise results; unequal lengths: both functions must panic
+fn ck_inplace<E: Gen>(cx: &mut Cx, a: &[E], b: &[E], c: E) {
+    let inp = || format!("a={} b={} c={}", fv(a), fv(b), c);
+    if a.len() != b.len() {
+        must_panic(cx, "add_in_place with different lengths", &inp, || {
+            let mut q = a.to_vec();
+            add_in_place(&mut q, b)
+        });
+        must_panic(cx, "mul_acc with different lengths", &inp, || {
+            let mut q = a.to_vec();
+            mul_acc::<E, E>(&mut q, b, c)
+        });
+        return;
+    }
+    guarded(cx, "add_in_place", &inp, |cx| {
+        let mut got = a.to_vec();
+        add_in_place(&mut got, b);
+        let want: Vec<E> = (0..a.len()).map(|i| a[i] + b[i]).collect();
+        cx.ck(got == want, "add_in_place(a,b) != pointwise a+b", &inp, &|| (fv(&want), fv(&got)));
+    });
+    guarded(cx, "mul_acc", &inp, |cx| {
+        let mut got = a.to_vec();
+        mul_acc::<E, E>(&mut got, b, c);
+        let want: Vec<E> = (0..a.len()).map(|i| a[i] + b[i] * c).collect();
+        cx.ck(got == want, "mul_acc(a,b,c) != pointwise a+b*c", &inp, &|| (fv(&want), fv(&got)));
+    });
+}
+
+fn ck_binv<E: Gen>(cx: &mut Cx, v: &[E]) {
+    let inp = || format!("v={}", fv(v));
+    guarded(cx, "batch_inversion", &inp, |cx| {
+        let got = batch_inversion(v);
+        cx.ck(got.len() == v.len(), "len(batch_inversion(v)) != len v", &inp, &|| (format!("{}", v.len()), format!("{}", got.len())));
+        let ok = got.len() == v.len()
+            && (0..v.len()).all(|i| if v[i] == E::ZERO { got[i] == E::ZERO } else { v[i] * got[i] == E::ONE && got[i] == v[i].inv() });
+        cx.ck(ok, "batch_inversion(v)[i] is not 0 for v[i]=0 / the inverse of v[i] otherwise", &inp, &|| ("pointwise inverses".into(), fv(&got)));
+        if E::P != 0 {
+            let ok = got.len() == v.len() && (0..v.len()).all(|i| got[i].val() == v[i].val().map(|x| invmod(x, E::P)));
+            cx.ck(ok, "batch_inversion(v)[i] != invmod(v[i])", &inp, &|| ("v[i]^(p-2) mod p".into(), fv(&got)));
+        }
+    });
+}
+
+/// the generic paths with B != E: eval::<B,E>, eval_many::<B,E>, mul_acc::<B,E>
+fn ck_mixed<B, E>(cx: &mut Cx, p: &[B], xs: &[E], a: &[E], b: &[B], c: E)
+where
+    B: Gen,
+    E: Gen + FieldElement<BaseField = B::BaseField> + From<B> + ExtensionOf<B>,
+{
+    let inp = || format!("p={} xs={} a={} b={} c={}", fv(p), fv(xs), fv(a), fv(b), c);
+    guarded(cx, "eval<B,E>", &inp, |cx| {
+        for x in xs {
+            let got = polynom::eval(p, *x);
+            let want = ref_eval(p, *x);
+            cx.ck(got == want, "eval::<B,E>(p,x) != sum E::from(c_i)*x^i", &inp, &|| (fe(want), fe(got)));
+        }
+        let got = polynom::eval_many(p, xs);
+        let want: Vec<E> = xs.iter().map(|x| ref_eval(p, *x)).collect();
+        cx.ck(got == want, "eval_many::<B,E>(p,xs) != pointwise reference", &inp, &|| (fv(&want), fv(&got)));
+    });
+    if a.len() != b.len() {
+        must_panic(cx, "mul_acc::<B,E> with different lengths", &inp, || {
+            let mut q = a.to_vec();
+            mul_acc::<B, E>(&mut q, b, c)
+        });
+        return;
+    }
+    guarded(cx, "mul_acc<B,E>", &inp, |cx| {
+        let mut got = a.to_vec();
+        mul_acc::<B, E>(&mut got, b, c);
+        let want: Vec<E> = (0..a.len()).map(|i| a[i] + c * E::from(b[i])).collect();
+        cx.ck(got == want, "mul_acc::<B,E>(a,b,c) != pointwise a + c*E::from(b)", &inp, &|| (fv(&want), fv(&got)));
+    });
+}
+
+// ---------------------------------------------------------------- falsifier inputs
+fn gv<E: Gen>(r: &mut Rng, n: usize) -> Vec<E> {
+    (0..n).map(|_| E::gen(r)).collect()
+}
+fn gnz<E: Gen>(r: &mut Rng) -> E {
+    loop {
+        let e = E::gen(r);
+        if e != E::ZERO {
+            return e;
+        }
+    }
+}
+fn gnzv<E: Gen>(r: &mut Rng, n: usize) -> Vec<E> {
+    (0..n).map(|_| gnz::<E>(r)).collect()
+}
+/// `l` coefficients, the `hz` highest zero (ALL: all), the `lz` lowest zero, non-zero next to the zero runs
+fn gshape<E: Gen>(r: &mut Rng, l: usize, hz: usize, lz: usize) -> Vec<E> {
+    if hz == ALL || hz >= l {
+        return vec![E::ZERO; l];
+    }
+    let mut v = gv::<E>(r, l);
+    let top = l - hz;
+    for x in v.iter_mut().skip(top) {
+        *x = E::ZERO;
+    }
+    v[top - 1] = gnz(r);
+    for x in v.iter_mut().take(lz.min(top - 1)) {
+        *x = E::ZERO;
+    }
+    if lz < top - 1 {
+        v[lz] = gnz(r);
+    }
+    v
+}
+fn grshape<E: Gen>(r: &mut Rng, l: usize) -> Vec<E> {
+    let hz = match r.below(8) {
+        0 => 1,
+        1 => 2,
+        2 => ALL,
+        _ => 0,
+    };
+    let lz = r.below(6).saturating_sub(3) as usize;
+    gshape(r, l, hz, lz)
+}
+fn gdistinct<E: Gen>(r: &mut Rng, n: usize, zero_at: Option<usize>) -> Vec<E> {
+    let mut v: Vec<E> = Vec::with_capacity(n);
+    while v.len() < n {
+        let e = gnz::<E>(r);
+        if !v.contains(&e) {
+            v.push(e);
+        }
+    }
+    if let Some(k) = zero_at {
+        if k < n {
+            v[k] = E::ZERO;
+        }
+    }
+    v
+}
+
+fn batch_case<E: Gen, const N: usize>(cx: &mut Cx, r: &mut Rng, nx: usize, with_zero: bool) {
+    let xs: Vec<[E; N]> = (0..nx)
+        .map(|i| {
+            let v = gdistinct::<E>(r, N, if with_zero && N > 0 { Some(i % N) } else { None });
+            core::array::from_fn(|j| v[j])
+        })
+        .collect();
+    let ys: Vec<[E; N]> = (0..nx).map(|_| core::array::from_fn(|_| E::gen(r))).collect();
+    ck_interp_batch(cx, &xs, &ys);
+}
+
+const FSZ: [usize; 10] = [0, 1, 2, 3, 7, 8, 9, 63, 64, 65];
+const FLONG: [usize; 3] = [1023, 1024, 1025];
+
+fn div_case<E: Gen>(cx: &mut Cx, r: &mut Rng, da: usize, db: usize, pa: usize, pb: usize) {
+    let mut b = gshape::<E>(r, db + 1, 0, 0);
+    b.extend(std::iter::repeat(E::ZERO).take(pb));
+    let mut a = gshape::<E>(r, da + 1, 0, (da + pb) % 3);
+    a.extend(std::iter::repeat(E::ZERO).take(pa));
+    ck_div(cx, &a, &b);
+    let q0 = gshape::<E>(r, da - db + 1, 0, 0);
+    ck_div_exact(cx, &q0, &b, pa);
+}
+
+/// deterministic enumeration of the boundary classes
+fn boundary_f<E: Gen>(cx: &mut Cx, r: &mut Rng) {
+    let shapes = [(0usize, 0usize), (1, 0), (2, 1), (ALL, 0), (0, 2)];
+    let consts = |r: &mut Rng| [E::ZERO, E::ONE, E::gen(r)];
+    // ---- linear-time operations, every size
+    for &l in FSZ.iter().chain(FLONG.iter()) {
+        for &(hz, lz) in &shapes {
+            let p = gshape::<E>(r, l, hz, lz);
+            ck_degree(cx, &p);
+            for x in consts(r) {
+                ck_eval(cx, &p, x);
+            }
+            for (lb, k) in [l, l + 1, l.saturating_sub(1), 0].into_iter().zip([E::ZERO, E::ONE, E::gen(r), E::gen(r)]) {
+                let b = gshape::<E>(r, lb, lz, 0);
+                ck_addsub(cx, &p, &b, k);
+                ck_addsub(cx, &b, &p, k);
+            }
+            for c in consts(r) {
+                let b = gv::<E>(r, l);
+                ck_inplace(cx, &p, &b, c);
+            }
+            ck_inplace(cx, &p, &gv::<E>(r, l + 1), E::ONE);
+            ck_inplace(cx, &gv::<E>(r, l + 1), &p, E::gen(r));
+            ck_binv(cx, &p);
+        }
+        let p = gv::<E>(r, l);
+        for nx in [0usize, 1, 3] {
+            ck_eval_many(cx, &p, &gv::<E>(r, nx));
+        }
+        for b in consts(r) {
+            for s in consts(r) {
+                ck_pow(cx, b, s, l);
+            }
+        }
+    }
+    // ---- mul
+    for &la in &FSZ {
+        for &lb in &FSZ {
+            ck_mul(cx, &gv::<E>(r, la), &gv::<E>(r, lb), E::gen(r));
+            if la <= 9 && lb <= 9 {
+                ck_mul(cx, &gshape::<E>(r, la, 1, 0), &gshape::<E>(r, lb, 2, 1), E::gen(r));
+                ck_mul(cx, &gshape::<E>(r, la, ALL, 0), &gv::<E>(r, lb), E::gen(r));
+            }
+        }
+    }
+    ck_mul(cx, &gv::<E>(r, 1025), &gv::<E>(r, 3), E::gen(r));
+    ck_mul(cx, &gv::<E>(r, 2), &gv::<E>(r, 1024), E::ONE);
+    // ---- div
+    for &da in &FSZ {
+        let mut dbs = vec![0usize, 1, da / 2, da];
+        dbs.retain(|d| *d <= da);
+        dbs.sort();
+        dbs.dedup();
+        for db in dbs {
+            for (pa, pb) in [(0usize, 0usize), (2, 1), (0, 3)] {
+                div_case::<E>(cx, r, da, db, pa, pb);
+            }
+        }
+    }
+    {
+        let c = gnz::<E>(r);
+        ck_div(cx, &[], &[c]);
+        ck_div(cx, &[], &[c, E::ZERO]);
+        ck_div(cx, &[E::ZERO], &[c]);
+        ck_div(cx, &[E::ZERO; 3], &[c, E::ZERO]);
+        for l in [0usize, 1, 3, 8] {
+            ck_div_panics(cx, &gv::<E>(r, l), c);
+        }
+        ck_div_panics(cx, &gshape::<E>(r, 5, 2, 0), c);
+        let inp = || "a=[] b=[c0,c1]".to_string();
+        must_panic(cx, "div of the empty polynomial by a polynomial of degree 1", &inp, || polynom::div::<E>(&[], &[c, c]));
+    }
+    // ---- syn_div / syn_div_in_place
+    for len in [2usize, 3, 4, 7, 8, 9, 63, 64, 65, 1023, 1024, 1025] {
+        let mut aa = vec![1usize, 2, 3, 5];
+        if len <= 65 {
+            aa.push(len - 1);
+        }
+        aa.retain(|a| *a < len);
+        aa.sort();
+        aa.dedup();
+        for a in aa {
+            for b in [E::ONE, gnz::<E>(r), E::ZERO - E::ONE] {
+                ck_syn_div(cx, &gv::<E>(r, len), a, b);
+                ck_syn_div(cx, &gshape::<E>(r, len, 2, 1), a, b);
+                ck_syn_div_exact(cx, &gv::<E>(r, len - a), a, b);
+            }
+        }
+    }
+    for l in [1usize, 2, 5] {
+        ck_syn_div_panics(cx, &gv::<E>(r, l), gnz::<E>(r));
+    }
+    // ---- syn_div_roots_in_place
+    for len in [2usize, 3, 8, 9, 64, 65] {
+        let mut ms = vec![1usize, 2, 3, len - 1];
+        ms.retain(|m| *m < len);
+        ms.sort();
+        ms.dedup();
+        for m in ms {
+            let roots = gnzv::<E>(r, m);
+            ck_syn_roots(cx, &gv::<E>(r, len), &roots);
+            ck_syn_roots_exact(cx, &gv::<E>(r, len - m), &roots);
+            let mut rz = roots.clone();
+            rz[0] = E::ZERO;
+            ck_syn_roots(cx, &gv::<E>(r, len), &rz);
+            ck_syn_roots_exact(cx, &gv::<E>(r, len - m), &rz);
+            let rep = vec![roots[0]; m];
+            ck_syn_roots(cx, &gshape::<E>(r, len, 1, 1), &rep);
+            ck_syn_roots_exact(cx, &gv::<E>(r, len - m), &rep);
+        }
+        ck_syn_roots_panics(cx, &gv::<E>(r, len), &gnzv::<E>(r, len));
+    }
+    ck_syn_roots_panics(cx, &[] as &[E], &[E::ONE]);
+    // ---- poly_from_roots
+    for n in (0..=9usize).chain([63, 64, 65]) {
+        ck_from_roots(cx, &gv::<E>(r, n));
+        if n > 0 {
+            ck_from_roots(cx, &gdistinct::<E>(r, n, Some(n / 2)));
+            let x = gnz::<E>(r);
+            ck_from_roots(cx, &vec![x; n]);
+        }
+    }
+    // ---- interpolate
+    for n in [0usize, 1, 2, 3, 7, 8, 9, 16, 33, 64, 65] {
+        let mut zs = vec![None, Some(0), Some(n / 2), Some(n.saturating_sub(1))];
+        zs.dedup();
+        for z in zs {
+            let xs = gdistinct::<E>(r, n, z);
+            ck_interp(cx, &xs, &gv::<E>(r, n));
+            ck_interp(cx, &xs, &vec![E::ZERO; n]);
+            ck_interp_roundtrip(cx, &gshape::<E>(r, n, 0, 0), &xs);
+            ck_interp_roundtrip(cx, &gshape::<E>(r, n / 3, 0, 1), &xs);
+            ck_interp_roundtrip(cx, &gshape::<E>(r, n, 2, 0), &xs);
+        }
+    }
+    for nx in 0..4usize {
+        for z in [false, true] {
+            batch_case::<E, 1>(cx, r, nx, z);
+            batch_case::<E, 2>(cx, r, nx, z);
+            batch_case::<E, 3>(cx, r, nx, z);
+            batch_case::<E, 4>(cx, r, nx, z);
+            batch_case::<E, 8>(cx, r, nx, z);
+        }
+    }
+    // ---- batch_inversion: zeros at every position
+    ck_binv(cx, &[] as &[E]);
+    for l in 1..=4usize {
+        for mask in 0..(1u32 << l) {
+            let v: Vec<E> = (0..l).map(|i| if mask >> i & 1 == 1 { E::ZERO } else { gnz::<E>(r) }).collect();
+            ck_binv(cx, &v);
+        }
+    }
+    for z in 0..8usize {
+        let mut v = gnzv::<E>(r, 8);
+        v[z] = E::ZERO;
+        ck_binv(cx, &v);
+    }
+    {
+        let mut v = gnzv::<E>(r, 8);
+        v[0] = E::ZERO;
+        v[7] = E::ZERO;
+        ck_binv(cx, &v);
+        v[3] = E::ONE;
+        v[4] = E::ZERO - E::ONE;
+        ck_binv(cx, &v);
+    }
+    for &l in FSZ.iter().chain(FLONG.iter()) {
+        if l == 0 {
+            continue;
+        }
+        ck_binv(cx, &gnzv::<E>(r, l));
+        ck_binv(cx, &vec![E::ZERO; l]);
+        for pos in [0, l - 1, r.below(l as u64) as usize] {
+            let mut v = gnzv::<E>(r, l);
+            v[pos] = E::ZERO;
+            ck_binv(cx, &v);
+        }
+        let mut v = gnzv::<E>(r, l);
+        v[0] = E::ZERO;
+        v[l - 1] = E::ZERO;
+        ck_binv(cx, &v);
+    }
+}
+
+/// one random round: every identity once on fresh inputs (sizes <= 24, occasionally 64..65)
+fn round<E: Gen>(cx: &mut Cx, r: &mut Rng, k: usize) {
+    let big = r.chance(1, 16);
+    let sz = |r: &mut Rng| if big { 64 + r.below(2) as usize } else { r.below(25) as usize };
+    // eval / eval_many / degree / add / sub / mul_by_scalar / in-place
+    let l = sz(r);
+    let p = grshape::<E>(r, l);
+    ck_eval(cx, &p, E::gen(r));
+    let nxs = r.below(9) as usize;
+    ck_eval_many(cx, &p, &gv::<E>(r, nxs));
+    ck_degree(cx, &p);
+    let lb = if r.chance(1, 2) { l } else { sz(r) };
+    let b = grshape::<E>(r, lb);
+    ck_addsub(cx, &p, &b, E::gen(r));
+    ck_inplace(cx, &p, &b, E::gen(r));
+    // mul
+    let (la, lb) = (sz(r), sz(r));
+    ck_mul(cx, &grshape::<E>(r, la), &grshape::<E>(r, lb), E::gen(r));
+    // div
+    let da = sz(r);
+    let db = r.below(da as u64 + 1) as usize;
+    let (pa, pb) = (r.below(3) as usize, r.below(3) as usize);
+    div_case::<E>(cx, r, da, db, pa, pb);
+    let lp = sz(r);
+    ck_div_panics(cx, &grshape::<E>(r, lp), gnz::<E>(r));
+    // syn_div
+    let len = 2 + sz(r);
+    let a = 1 + r.below(7.min(len as u64 - 1)) as usize;
+    let bb = if r.chance(1, 4) { E::ONE } else { gnz::<E>(r) };
+    ck_syn_div(cx, &grshape::<E>(r, len), a, bb);
+    ck_syn_div_exact(cx, &gv::<E>(r, len - a), a, bb);
+    let lp = 1 + r.below(6) as usize;
+    ck_syn_div_panics(cx, &gv::<E>(r, lp), gnz::<E>(r));
+    // syn_div_roots_in_place
+    let len = 2 + sz(r);
+    let m = 1 + r.below(len as u64 - 1) as usize;
+    let roots = if r.chance(1, 4) { gv::<E>(r, m) } else { gnzv::<E>(r, m) };
+    ck_syn_roots(cx, &grshape::<E>(r, len), &roots);
+    ck_syn_roots_exact(cx, &gv::<E>(r, len - m), &roots);
+    let extra = r.below(2) as usize;
+    ck_syn_roots_panics(cx, &gv::<E>(r, m), &gnzv::<E>(r, m + extra));
+    // poly_from_roots
+    let n = sz(r);
+    ck_from_roots(cx, &gv::<E>(r, n));
+    // interpolate
+    let n = sz(r);
+    let z = if r.chance(1, 3) { Some(r.below(n.max(1) as u64) as usize) } else { None };
+    let xs = gdistinct::<E>(r, n, z);
+    ck_interp(cx, &xs, &gv::<E>(r, n));
+    let lp = r.below(n as u64 + 1) as usize;
+    ck_interp_roundtrip(cx, &grshape::<E>(r, lp), &xs);
+    let nx = r.below(4) as usize;
+    let wz = r.chance(1, 3);
+    match k % 5 {
+        0 => batch_case::<E, 1>(cx, r, nx, wz),
+        1 => batch_case::<E, 2>(cx, r, nx, wz),
+        2 => batch_case::<E, 3>(cx, r, nx, wz),
+        3 => batch_case::<E, 4>(cx, r, nx, wz),
+        _ => batch_case::<E, 8>(cx, r, nx, wz),
+    }
+    // power series
+    let n = sz(r);
+    ck_pow(cx, E::gen(r), E::gen(r), n);
+    // batch inversion
+    let n = sz(r);
+    let mut v = gnzv::<E>(r, n);
+    for x in v.iter_mut() {
+        if r.chance(1, 5) {
+            *x = E::ZERO;
+        }
+    }
+    ck_binv(cx, &v);
+}
+
+fn mixed<B, E>(cx: &mut Cx, r: &mut Rng, n: usize)
+where
+    B: Gen,
+    E: Gen + FieldElement<BaseField = B::BaseField> + From<B> + ExtensionOf<B>,
+{
+    for &l in FSZ.iter().chain(FLONG.iter()) {
+        let p = gshape::<B>(r, l, l % 3, l % 2);
+        let xs = [E::ZERO, E::ONE, E::gen(r), E::from(B::gen(r))];
+        for c in [E::ZERO, E::ONE, E::gen(r)] {
+            ck_mixed::<B, E>(cx, &p, &xs, &gv::<E>(r, l), &gv::<B>(r, l), c);
+        }
+        ck_mixed::<B, E>(cx, &p, &xs, &gv::<E>(r, l), &gv::<B>(r, l + 1), E::ONE);
+    }
+    for _ in 0..n {
+        let l = r.below(25) as usize;
+        let l2 = r.below(25) as usize;
+        let lb = if r.chance(1, 8) { l2 + 1 } else { l2 };
+        let nxs = r.below(5) as usize;
+        ck_mixed::<B, E>(cx, &grshape::<B>(r, l), &gv::<E>(r, nxs), &gv::<E>(r, l2), &gv::<B>(r, lb), E::gen(r));
+    }
+}
+
+fn falsify(seed: u64, n: usize) {
+    let (evals, fails) = watchdog::run(
+        std::time::Duration::from_secs(10),
+        move |prog| {
+            let mut r = Rng::new(seed);
+            let mut tot = (0usize, 0usize);
+            macro_rules! field {
+                ($e:ty) => {{
+                    let mut cx = Cx { field: <$e as Gen>::NAME, evals: 0, fails: 0, prog: prog.clone() };
+                    boundary_f::<$e>(&mut cx, &mut r);
+                    for k in 0..n {
+                        round::<$e>(&mut cx, &mut r, k);
+                    }
+                    tot.0 += cx.evals;
+                    tot.1 += cx.fails;
+                }};
+            }
+            macro_rules! mixed_pair {
+                ($b:ty, $e:ty, $name:expr) => {{
+                    let mut cx = Cx { field: $name, evals: 0, fails: 0, prog: prog.clone() };
+                    mixed::<$b, $e>(&mut cx, &mut r, n);
+                    tot.0 += cx.evals;
+                    tot.1 += cx.fails;
+                }};
+            }
+            field!(f64::BaseElement);
+            field!(f62::BaseElement);
+            field!(f128::BaseElement);
+            field!(QuadExtension<f64::BaseElement>);
+            field!(QuadExtension<f62::BaseElement>);
+            field!(QuadExtension<f128::BaseElement>);
+            field!(CubeExtension<f64::BaseElement>);
+            field!(CubeExtension<f62::BaseElement>);
+            mixed_pair!(f64::BaseElement, QuadExtension<f64::BaseElement>, "f64->quad<f64>");
+            mixed_pair!(f62::BaseElement, QuadExtension<f62::BaseElement>, "f62->quad<f62>");
+            mixed_pair!(f128::BaseElement, QuadExtension<f128::BaseElement>, "f128->quad<f128>");
+            mixed_pair!(f64::BaseElement, CubeExtension<f64::BaseElement>, "f64->cube<f64>");
+            mixed_pair!(f62::BaseElement, CubeExtension<f62::BaseElement>, "f62->cube<f62>");
+            tot
+        },
+        |cur| {
+            println!(
+                "{{\"field\":\"?\",\"what\":\"operation does not terminate (no progress for 10 s)\",\"input\":{},\"expected\":\"returns\",\"actual\":\"hang\"}}",
+                jstr(&cur)
+            );
+        },
+    );
+    eprintln!("evaluations={} failures={}", evals, fails);
 }
 
 fn main() {
